@@ -336,7 +336,7 @@ theorem writtenP_finish {cfg : Cfg} {s : State} (hs : SInv cfg s) {i : Nat} {p :
       (s' := { s with tasks := (s.tasks.set i (.done true)).set (i + 1) (firstPc cfg (cfg.poolOf i)) })
       (i := i + 1) (p := .notStarted) (x := firstPc cfg (cfg.poolOf i))
       (by simp only [List.getElem?_set]; simp; exact hnext) rfl
-      (by unfold firstPc; split <;> rfl) k
+      rfl k
     exact h2.trans h1
   · exact writtenP_set (s := s) (x := .done ok) hi rfl (by rw [hw]; cases ok <;> rfl) k
 
@@ -374,7 +374,7 @@ theorem FInv_step {cfg : Cfg} (wf : WF cfg) (lay : Layout cfg) {s s' : State} {l
   | joinSub q c e P jp hP hm hex hpar => exact frame rfl (fun _ => Iff.rfl)
   | takeSerial q j rest P hP hq hidle hsub =>
       have hj : j ∈ (s.pl q).queue := by rw [pl_of_get hP, hq]; simp
-      exact frame rfl (writtenP_set (hs.start_notStarted wf hj hsub) rfl (by unfold firstPc; split <;> rfl))
+      exact frame rfl (writtenP_set (hs.start_notStarted wf hj hsub) rfl rfl)
   | takeSub q j rest P q' hP hq hidle hsub => exact frame rfl (fun _ => Iff.rfl)
   | exit q P hP hq hsd hidle => exact frame rfl (fun _ => Iff.rfl)
   | cbAcqIn i hi hl => exact frame rfl (writtenP_set hi rfl rfl)
@@ -383,11 +383,12 @@ theorem FInv_step {cfg : Cfg} (wf : WF cfg) (lay : Layout cfg) {s s' : State} {l
       refine frame (by simp) (fun k => ?_)
       exact writtenP_finish (s := { s with log := s.log ++ [i], cbLock := false,
                                            cbIn := if (cfg.pool (cfg.poolOf i)).innerCb
-                                             then s.cbIn.set (cfg.poolOf i) false else s.cbIn })
-        (SInv_congr hs rfl rfl rfl rfl (by simp only; split <;> simp) (fun _ => rfl) (fun _ => rfl))
+                                             then s.cbIn.set (cfg.poolOf i) false else s.cbIn,
+                                           tLocks := s.tLocks.set (cfg.obj i) false })
+        (SInv_congr hs rfl rfl (by simp) rfl (by simp only; split <;> simp) (fun _ => rfl) (fun _ => rfl))
         false hi rfl rfl k
   | cbOk i hi hf => exact frame rfl (writtenP_set hi rfl rfl)
-  | tAcq i hi hl => exact frame rfl (writtenP_set hi rfl rfl)
+  | tAcq i hi hl => exact frame rfl (writtenP_set hi rfl (by unfold afterT; split <;> rfl))
   | bTry i p hi hp' =>
       rcases budgetTry_cases cfg s i with ⟨_, _, e⟩ | ⟨_, _, e⟩ | ⟨_, _, e⟩ | ⟨_, _, e⟩ <;> rw [e] <;>
         exact frame rfl (writtenP_set hi rfl (by rcases hp' with rfl | rfl <;> rfl))
